@@ -1401,4 +1401,121 @@ theorem reachFull_nodes {g : List NodeInfo} {s : State} (h : ReachFull g s) : s.
   | init => rfl
   | step _ _ ih => rw [apply_nodes]; exact ih
 
+
+/-- the end state of a concrete history, as the `Props` examples define it, is reachable -/
+theorem reach_of_match (g : List NodeInfo) (evs : List Ev) :
+    Reach g (match replay (init g) evs with | .ok s => s | .error _ => init g) := by
+  cases h : replay (init g) evs
+  · exact Reach.init
+  · exact replay_reach h
+
+/-! ### `Node.getFatalError` -/
+
+theorem fatalErrorIn_spec {s : State} {l : List Obj} {o : Obj} {x : Sentinel}
+    (h : fatalErrorIn s l = some (o, x)) :
+    o ∈ l ∧ s.st o = some .failed ∧ (s.m o).seen.has x = true ∧
+    ((x = .errors) ∨ (x = .assert ∧ (s.m o).seen.has .errors = false)) := by
+  induction l with
+  | nil => simp [fatalErrorIn] at h
+  | cons a r ih =>
+    simp only [fatalErrorIn] at h
+    split at h
+    · rename_i hst
+      split at h
+      · rename_i he
+        simp only [Option.some.injEq, Prod.mk.injEq] at h
+        obtain ⟨rfl, rfl⟩ := h
+        exact ⟨List.mem_cons_self .., by simpa using hst, he, Or.inl rfl⟩
+      · split at h
+        · rename_i he ha
+          simp only [Option.some.injEq, Prod.mk.injEq] at h
+          obtain ⟨rfl, rfl⟩ := h
+          exact ⟨List.mem_cons_self .., by simpa using hst, ha,
+            Or.inr ⟨rfl, by simpa [SSet.has] using he⟩⟩
+        · obtain ⟨a1, a2⟩ := ih h
+          exact ⟨List.mem_cons_of_mem _ a1, a2⟩
+    · obtain ⟨a1, a2⟩ := ih h
+      exact ⟨List.mem_cons_of_mem _ a1, a2⟩
+
+theorem fatalErrorIn_some {s : State} {l : List Obj} {o : Obj} (hm : o ∈ l)
+    (hf : s.st o = some .failed) : ∃ r, fatalErrorIn s l = some r := by
+  induction l with
+  | nil => cases hm
+  | cons a r ih =>
+    simp only [fatalErrorIn]
+    by_cases hst : s.st a = some .failed
+    · have := metaState_failed.mp hst
+      simp only [SSet.has] at this
+      simp only [hst, beq_self_eq_true, if_true]
+      rcases this with h | h
+      · simp [h]
+      · cases he : (s.m a).seen.errors <;> simp [h]
+    · have hne : (s.st a == some MState.failed) = false := by simpa using hst
+      simp only [hne, Bool.false_eq_true, if_false]
+      rcases List.mem_cons.mp hm with rfl | hm
+      · exact absurd hf hst
+      · exact ih hm
+
+theorem collect_mem {s : State} {n : Nat} {o : Obj} (h : o ∈ collect s n) :
+    o.n = n ∧ o.f ∈ s.forksOf n ∧ (∀ i, o.r = .chunk i → i < s.nch n o.f) := by
+  simp only [collect, List.mem_flatMap, forkObjs, List.mem_cons, List.mem_map, List.mem_range] at h
+  obtain ⟨f, hf, h⟩ := h
+  rcases h with rfl | rfl | rfl | ⟨i, hi, rfl⟩
+  · exact ⟨rfl, hf, by simp⟩
+  · exact ⟨rfl, hf, by simp⟩
+  · exact ⟨rfl, hf, by simp⟩
+  · refine ⟨rfl, hf, ?_⟩
+    intro j hj; simp only [Role.chunk.injEq] at hj; subst hj; exact hi
+
+/-- a failed node has a failed metadata object among those `getFatalError` inspects -/
+theorem failed_node_has_failed_obj {s : State} {n : Nat} (h : nodeState s n = .failed) :
+    ∃ o, o ∈ collect s n ∧ s.st o = some .failed := by
+  unfold nodeState nodeStateOf at h
+  cases hs : scanForks (forkStates s n) true
+  · have := scanForks_failed hs
+    simp only [forkStates, List.mem_map] at this
+    obtain ⟨f, hf, hff⟩ := this
+    have hin : ∀ o, o ∈ forkObjs s n f → o ∈ collect s n := by
+      intro o ho
+      simp only [collect, List.mem_flatMap]
+      exact ⟨f, hf, ho⟩
+    rcases forkStateOf_failed hff with h' | h' | h' | h'
+    · exact ⟨⟨n, f, .fork⟩, hin _ (by simp [forkObjs]), h'⟩
+    · exact ⟨⟨n, f, .join⟩, hin _ (by simp [forkObjs]), h'⟩
+    · simp only [chunkStates, List.mem_map, List.mem_range] at h'
+      obtain ⟨i, hi, hc⟩ := h'
+      exact ⟨⟨n, f, .chunk i⟩, hin _ (by simp [forkObjs]; exact hi), hc⟩
+    · exact ⟨⟨n, f, .split⟩, hin _ (by simp [forkObjs]), h'⟩
+  · rename_i d; rw [hs] at h; cases d <;> simp at h
+  · rw [hs] at h
+    by_cases hp : (s.pre n).all (nodeDone s) = true <;> simp [hp] at h
+
+/-! ### transitive blocking of completion -/
+
+theorem upstream_blocks_completion {s : State} (hobj : ObjsInv s) (hci : CompleteInv s)
+    (hro : s.reopened = false) {n p : Nat} (hu : Upstream s n p) (hnd : nodeDone s p = false) :
+    (∀ f, (s.m ⟨n, f, .fork⟩).disk.has .complete = false) ∧ nodeState s n ≠ .complete := by
+  have one : ∀ q m, m ∈ s.pre q → nodeDone s m = false →
+      (∀ f, (s.m ⟨q, f, .fork⟩).disk.has .complete = false) ∧ nodeState s q ≠ .complete := by
+    intro q m hm hmd
+    have hall : ∀ f, (s.m ⟨q, f, .fork⟩).disk.has .complete = false := by
+      intro f
+      cases hc : (s.m ⟨q, f, .fork⟩).disk.has .complete
+      · rfl
+      · have := hci hro q f hc m hm; rw [hmd] at this; cases this
+    refine ⟨hall, fun hc => ?_⟩
+    obtain ⟨f, hf⟩ := nodeState_complete_fork hobj hc
+    rw [hall f] at hf; cases hf
+  induction hu with
+  | direct hp => exact one _ _ hp hnd
+  | step hq hndis _ ih =>
+    rename_i n0 q0 p0 _
+    have hq' := ih hnd
+    apply one _ _ hq
+    cases hd : nodeDone s q0
+    · rfl
+    · rcases nodeDone_state hd with hc | hdis
+      · exact absurd hc hq'.2
+      · exact absurd hdis hndis
+
 end Martian.Sched
